@@ -111,6 +111,9 @@ type rt struct {
 	srcCmd     chan srcCmd
 	srcInc     int
 	startedInc int
+	stall   map[int64]bool // free mode: nodes whose first call blocks until released
+	stallCh chan struct{}
+	srcEnded chan struct{}
 	script     []srcPhase // free mode: per incarnation
 	errs       map[string]*errInfo
 	errSeq     int
@@ -262,6 +265,9 @@ func (h *hnode) decide(ev *firebolt.Event, it item) outcome {
 		return o
 	}
 	h.r.log(sx.T(sx.L(5), sx.L(h.nid), it.tree()))
+	if h.r.stall[h.nid] {
+		<-h.r.stallCh // stalled until the harness has seen whether everybody else could go on
+	}
 	return h.freeOutcome(it, false)
 }
 
@@ -287,6 +293,9 @@ func (h *hnode) freeOutcome(it item, callback bool) outcome {
 		n := 1
 		if h.kind == 1 {
 			n = int(hv >> 16 % 4)
+		}
+		if h.kind != 1 && it.err == 0 && hv>>24%3 == 0 {
+			return outcome{kind: 0, ids: []int64{it.id}} // pass the same event on
 		}
 		o := outcome{kind: 0}
 		for j := 0; j < n; j++ {
@@ -350,6 +359,9 @@ func (n *syncNode) Process(ev *firebolt.Event) (*firebolt.Event, error) {
 		if len(o.ids) == 0 {
 			return nil, nil
 		}
+		if o.ids[0] == it.id && it.err == 0 {
+			return ev, nil // pass the very same event on
+		}
 		return ev.WithPayload(o.ids[0]), nil
 	}
 }
@@ -366,7 +378,11 @@ func (n *fanoutNode) Process(ev *firebolt.Event) ([]firebolt.Event, error) {
 	}
 	res := []firebolt.Event{}
 	for _, id := range o.ids {
-		res = append(res, *ev.WithPayload(id))
+		if id == it.id && it.err == 0 {
+			res = append(res, *ev)
+		} else {
+			res = append(res, *ev.WithPayload(id))
+		}
 	}
 	if len(res) == 0 && it.id%2 == 0 {
 		return nil, nil // both nil and empty slices mean "filtered"
@@ -376,17 +392,21 @@ func (n *fanoutNode) Process(ev *firebolt.Event) ([]firebolt.Event, error) {
 
 type asyncNode struct{ hnode }
 
-func (n *hnode) answer(ae *firebolt.AsyncEvent, ev *firebolt.Event, o outcome) {
+func (n *hnode) answer(ae *firebolt.AsyncEvent, ev *firebolt.Event, it item, o outcome) {
 	switch o.kind {
 	case 1:
 		ae.ReturnError(n.mkErr(o.err, ev))
 	default:
 		if len(o.ids) == 0 {
-			if ev.Payload != nil && (n.itemOf(ev).id%2 == 0) {
+			if it.id%2 == 0 {
 				ae.ReturnFiltered()
 			} else {
 				ae.ReturnEvent(nil)
 			}
+			return
+		}
+		if o.ids[0] == it.id && it.err == 0 {
+			ae.ReturnEvent(ae) // pass the very same (retained) event on, as batching nodes do
 			return
 		}
 		ae.ReturnEvent(ae.WithPayload(o.ids[0]))
@@ -418,7 +438,7 @@ func (n *asyncNode) ProcessAsync(ae *firebolt.AsyncEvent) {
 	}
 	// inline completion on the worker goroutine
 	n.r.log(sx.T(sx.L(6), sx.L(n.nid), it.tree(), o.tree()))
-	n.answer(ae, ev, o)
+	n.answer(ae, ev, it, o)
 }
 
 // complete fires the callback of an in-flight event from the calling (foreign) goroutine.
@@ -447,7 +467,7 @@ func (n *hnode) complete(it item, o outcome) bool {
 	if n.r.lock {
 		defer n.cbWg.Done()
 	}
-	n.answer(f.ae, f.ev, o)
+	n.answer(f.ae, f.ev, f.it, o)
 	return true
 }
 
@@ -514,6 +534,11 @@ func (s *hsrc) Start() error {
 	}
 	s.r.log(sx.T(sx.L(3), sx.L(int64(s.inc)), sx.B(ph.ok)))
 	if ph.ok {
+		select {
+		case <-s.r.srcEnded:
+		default:
+			close(s.r.srcEnded)
+		}
 		return nil
 	}
 	return errors.New("scripted source failure")
@@ -525,7 +550,8 @@ func newRT(lock bool, seed uint64) *rt {
 	curMu.Lock()
 	caseSeq++
 	r := &rt{prefix: fmt.Sprintf("k%d_", caseSeq), lock: lock, seed: seed, nodes: map[string]*hnode{}, idOf: map[string]int64{},
-		srcCmd: make(chan srcCmd), errs: map[string]*errInfo{}, done: make(chan struct{})}
+		srcCmd: make(chan srcCmd), errs: map[string]*errInfo{}, done: make(chan struct{}),
+		stall: map[int64]bool{}, stallCh: make(chan struct{}), srcEnded: make(chan struct{})}
 	cur = r
 	curMu.Unlock()
 	return r
